@@ -123,9 +123,12 @@ func expectMsg(p *Program, m *Msg, path string, depth int) *EMsg {
 	if inj, ok := c.InjectedFields[path]; ok {
 		em.Injected = inj
 	}
-	if em.Empty {
+	placeholder := func() {
 		em.Fields = append(em.Fields, &EField{Proto: "active", GoName: "active", Attr: "active", Path: path + ".active", Shape: "prim", PK: "bool", Scalar: "bool",
 			Computed: true, Desc: "Automatically generated field preventing empty message errors", Placeholder: true, Validators: []string{}, PlanModifiers: []string{}})
+	}
+	if em.Empty {
+		placeholder()
 		return em
 	}
 	for i := range m.Fields {
@@ -232,6 +235,16 @@ func expectMsg(p *Program, m *Msg, path string, depth int) *EMsg {
 			ef.Msg = nil
 		}
 		em.Fields = append(em.Fields, ef)
+	}
+	if len(em.Fields) == 0 {
+		// every field is excluded: the message is like one without fields (F16)
+		em.Empty = true
+		placeholder()
+		return em
+	}
+	if len(em.Fields) == 1 && em.Fields[0].Placeholder {
+		// nothing but the placeholder promoted from an embedded message without fields: nothing to convert either
+		em.Empty = true
 	}
 	if c.Sort {
 		sort.SliceStable(em.Fields, func(i, j int) bool { return em.Fields[i].GoName < em.Fields[j].GoName })
